@@ -2,7 +2,7 @@
 import itertools
 
 ID = 'C15'
-LEAN_MODULES = ['C15', 'C15b']
+LEAN_MODULES = ['C15', 'C15b', 'C15c']
 RULE = ('one case = the real selector actor (start_node_selector + DCAwareSelector) for one local node, a sequence of membership updates (layouts up to 4 DCs x 4 nodes, '
         'the local node at every position, DCs appearing/disappearing/shrinking) and selections at all eight consistency levels; the data centres picked by the random '
         'choose_multiple are recorded by hook H3 and handed to the model; results compared with the Lean model after every call; python oracle = the property itself '
@@ -11,7 +11,7 @@ RULE = ('one case = the real selector actor (start_node_selector + DCAwareSelect
 ASSUMPTIONS = ['the per-level result cache (2 s) does not expire within a case unless the case says so (sel-expire sleeps 2.1 s)',
                'sel-set layouts (fed to the selector directly) have unique addresses; layouts WITHOUT the local node, the empty layout and the state before the first update are exercised (degenerate cases) but the property oracle only speaks about layouts that contain the local node in its own data centre (what the membership layer installs)']
 TRUSTED_BASE = ['correspondence: dcharness (real selector actor through NodeSelectorHandle) vs dcdriver (Datacake.Selector model); hook H3 records the random DC choice']
-THEOREM_NOTE = 'Datacake.Selector.selectN / selectNodes / setNodes / getNodes (Model/Selector.lean)'
+THEOREM_NOTE = 'Datacake.Selector.selectN / selectNodes / setNodes / getNodes / dcLayout (Model/Selector.lean); Props/C15c: dcLayout_wf (the map the watcher installs is well-formed for EVERY snapshot: WF is discharged, not assumed), wired_selection_sound, legacy_wiring_duplicates'
 LEVELS = ['none', 'one', 'two', 'three', 'quorum', 'localquorum', 'all', 'eachquorum']
 JOBS = 8
 
